@@ -3,7 +3,7 @@ CHECK = {
                         "C02.gen_structure", "C02.write_sim", "C02.drain_sim", "C02.run_sim",
                         "C02Heap.gen_structure", "C02Heap.gen_less", "C02Heap.gen_index", "C02Heap.gen_branches",
                         "C02Heap.c02_heap_invariant", "C02Heap.c02_heap_root_min", "C02Heap.c02_heap_pop_min", "C02Heap.c02_heap_push_perm",
-                        "C02Heap.c02_heap_fuel", "C02Heap.c02_heap_bridge_partial", "C02Heap.c02_heap_duplicate_wedges_witness", "C02Heap.c02_heap_duplicate_agrees_witness"],
+                        "C02Heap.c02_heap_fuel", "C02Heap.c02_heap_bridge_partial", "C02Heap.c02_heap_bridge", "C02Heap.drain_bridge", "C02Heap.ins_sorted", "C02Heap.ins_perm", "C02Heap.c02_heap_duplicate_wedges_witness", "C02Heap.c02_heap_duplicate_agrees_witness"],
         "lean_module": "CloakModel.Props.C02All",
         "scenarios": ["C02", "C02heap"],
         "reset_ops": ["sb.new", "hp.new", "hp.sbnew"],
